@@ -242,9 +242,62 @@ func runC11(c *Ctx) {
 			}
 			r.Check(rule, "telemetrygodev.validate/"+want, gd.Pos(val.Pos()), ok, "server must reject when "+want+" is false: "+detail+"; calls found: "+sigList(calls))
 		}
+		// every predicate is unskippable: within the loop that visits the checked item, no path
+		// from the loop head back to it (next item) or to an accepting return avoids the call.
+		loops := naturalLoops(val)
+		for _, a := range calls {
+			var inner *loopInfo
+			for _, l := range loops {
+				if l.blocks[a.Call.Block()] && (inner == nil || len(l.blocks) < len(inner.blocks)) {
+					inner = l
+				}
+			}
+			var start []*ssa.BasicBlock
+			if inner != nil {
+				for _, s := range inner.header.Succs {
+					if inner.blocks[s] {
+						start = append(start, s)
+					}
+				}
+			} else {
+				start = []*ssa.BasicBlock{val.Blocks[0]}
+			}
+			seen := map[*ssa.BasicBlock]bool{a.Call.Block(): true}
+			escape := ""
+			var walk func(b *ssa.BasicBlock)
+			walk = func(b *ssa.BasicBlock) {
+				if escape != "" {
+					return
+				}
+				if inner != nil && b == inner.header {
+					escape = "the next item is reached"
+					return
+				}
+				if seen[b] {
+					return
+				}
+				seen[b] = true
+				if ret, ok := b.Instrs[len(b.Instrs)-1].(*ssa.Return); ok {
+					if _, rej := rejectBlock(b); !rej {
+						escape = "an accepting return at " + gd.Pos(ret.Pos()) + " is reached"
+					}
+					return
+				}
+				for _, s := range b.Succs {
+					walk(s)
+				}
+			}
+			for _, s := range start {
+				walk(s)
+			}
+			r.Check("C11.exhaustive", "telemetrygodev.validate/"+a.Sig()+" cannot be skipped", gd.Pos(a.Call.Pos()), escape == "",
+				"every item must pass this predicate before it is accepted; without evaluating it "+escape)
+		}
 		// subject: all program-level roles are fields of the ranged element of r.Programs
 		siteExhaustive(r, gd, "telemetrygodev.validate", val, required)
 	}
+	// the uploader folds each count file under the program report found for THAT file's build
+	c07AccumulateAs(c, root, "C11.program-level")
 	// the lookup tables behind the predicates are built as the documented semantics say
 	c01TablesAs(c, root, "C11")
 	r.Floor("C11.program-level", 20)
